@@ -41,10 +41,17 @@ fn class_of(err: &str) -> &'static str {
 
 /// `prev`: for incremental saves, the image the new one must extend.
 pub fn check_image(ctx: &Ctx, img: &[u8], model: &MDoc, prev: Option<&[u8]>) -> Result<(), Violation> {
+    check_image_opt(ctx, img, model, prev, false)
+}
+
+/// `foreign_base`: the first revision was not written by lopdf (header rules of C03 do not apply to it).
+pub fn check_image_opt(ctx: &Ctx, img: &[u8], model: &MDoc, prev: Option<&[u8]>, foreign_base: bool) -> Result<(), Violation> {
     ctx.count("c03-images-checked");
-    let opts = StrictOpts { trusted_prefix: prev.map_or(0, |p| p.len()), allow_leading_junk: false };
+    let opts = StrictOpts { trusted_prefix: prev.map_or(0, |p| p.len()), allow_leading_junk: false, binary_comment_optional: foreign_base };
     let sd = read_strict(img, &opts).map_err(|e| Violation::new(class_of(&e), format!("strict reader rejects the saved file: {e}")))?;
-    pdfmodel::same_doc(model, &sd.doc, &|_, _: &MObj| false)
+    // R6: for a foreign base, streams keep an indirect Length in the file while lopdf reports the integer
+    let recovered = if foreign_base { crate::scen_b::expect_for_lopdf(&sd.doc) } else { sd.doc.clone() };
+    pdfmodel::same_doc(model, &recovered, &|_, _: &MObj| false)
         .map_err(|(c, e)| Violation::new(format!("strict:{c}"), format!("strict reader recovers a different document: {e}")))?;
     if let Some(p) = prev {
         ctx.count("c03-incremental-images-checked");
